@@ -41,7 +41,8 @@ class Stats(object):
 
 class Explorer(object):
     def __init__(self, run_fn, bound=None, use_cache=True, max_execs=None, max_seconds=None, seed=0,
-                 stop_on_violation=True, keep_samples=3, visited=None):
+                 stop_on_violation=True, keep_samples=3, visited=None, deviations=False):
+        self.deviations = deviations     # bound counts every non-default choice (not only preemptions)
         self.run_fn = run_fn
         self.bound = bound
         self.use_cache = use_cache
@@ -93,7 +94,7 @@ class Explorer(object):
                 st.caps.append("max_seconds=%s" % self.max_seconds)
                 break
             prefix = stack.pop()
-            sched, obs = self.run_fn(prefix, True, self._cut)
+            sched, obs = self.run_fn(prefix, self.use_cache, self._cut)
             st.executions += 1
             pts = sched.points
             st.max_points = max(st.max_points, len(pts))
@@ -126,9 +127,13 @@ class Explorer(object):
                     break
                 if p.key is not None:
                     self.edges.add((p.key, 0))
+                ndev = sum(1 for x in choices[:i] if x > 0) if self.deviations else 0
                 for alt in range(1, p.n):
                     c = 0 if p.costs is None else p.costs[alt]
-                    if self.bound is not None and p.cost_before + c > self.bound:
+                    if self.deviations:
+                        if self.bound is not None and ndev + 1 > self.bound:
+                            continue
+                    elif self.bound is not None and p.cost_before + c > self.bound:
                         continue
                     if p.key is not None:
                         self.edges.add((p.key, alt))
@@ -149,7 +154,7 @@ _G = {}
 def _worker(task):
     prefixes, budget = task
     ex = Explorer(_G["run_fn"], bound=_G["bound"], visited=_G["visited"], stop_on_violation=_G["stop"],
-                  keep_samples=1)
+                  keep_samples=1, use_cache=_G.get("use_cache", True), deviations=_G.get("deviations", False))
     ex.new_visited = {}
     ex.explore(prefixes, budget_execs=budget)
     st = ex.stats
@@ -165,7 +170,9 @@ class ParallelExplorer(object):
     the new visited entries (min cost), edges, outcomes and leftover prefixes."""
 
     def __init__(self, run_fn, bound=None, procs=None, task_execs=150, max_seconds=None, max_execs=None,
-                 stop_on_violation=True, warmup_execs=40):
+                 stop_on_violation=True, warmup_execs=40, use_cache=True, deviations=False):
+        self.use_cache = use_cache
+        self.deviations = deviations
         self.run_fn = run_fn
         self.bound = bound
         self.procs = procs or int(os.environ.get("VERIF_PROCS", "16"))
@@ -191,7 +198,8 @@ class ParallelExplorer(object):
     def explore(self):
         t0 = time.time()
         st = self.stats
-        ex = Explorer(self.run_fn, bound=self.bound, visited=self.visited, stop_on_violation=self.stop)
+        ex = Explorer(self.run_fn, bound=self.bound, visited=self.visited, stop_on_violation=self.stop, use_cache=self.use_cache,
+                      deviations=self.deviations)
         ex.explore([[]], budget_execs=self.warmup)
         frontier = ex.stack
         self.edges |= ex.edges
@@ -212,7 +220,8 @@ class ParallelExplorer(object):
                 st.caps.append("max_execs=%s" % self.max_execs)
                 break
             st.rounds += 1
-            _G.update(run_fn=self.run_fn, bound=self.bound, visited=self.visited, stop=self.stop)
+            _G.update(run_fn=self.run_fn, bound=self.bound, visited=self.visited, stop=self.stop, use_cache=self.use_cache,
+                      deviations=self.deviations)
             # deepest prefixes last in the stack; hand them out round-robin so every worker gets a mix
             ntasks = min(len(frontier), self.procs * 4)
             buckets = [[] for _ in range(ntasks)]
